@@ -867,3 +867,33 @@ pub fn twin_exec() {
     exec_check(&c);
     assert!(false);
 }
+
+// ---- additional grid points (thorough tier) ----
+// @h prop=C01 unwind=10 rec=2 cutfmt=1 uw=same_output.0:25;exit_model.0:25;exit.0:25;push.0:17;write.0:17 timeout=900 what=항_with_stack_4_selected,target_5
+step!(t_add2_c4, Cfg { kind: 1, h: 2, d: 5, cur: 4, depth: [0, 0, 0, 1, 2, 1], ..CFG0 });
+// @h prop=C01 unwind=10 rec=2 cutfmt=1 uw=same_output.0:25;exit_model.0:25;exit.0:25;push.0:17;write.0:17 timeout=900 what=흣_with_stack_5_selected,target_3
+step!(t_neg2_c5, Cfg { kind: 3, h: 2, d: 3, cur: 5, depth: [0, 0, 0, 1, 0, 2], ..CFG0 });
+// @h prop=C01 unwind=10 rec=2 cutfmt=1 uw=same_output.0:25;exit_model.0:25;exit.0:25;push.0:17;write.0:17 timeout=900 what=항_target_0:value_stored_on_the_input_buffer(no_output,no_read)
+step!(t_add_to0, Cfg { kind: 1, h: 1, d: 0, depth: [1, 0, 0, 1, 0, 0], ..CFG0 });
+// @h prop=C01 unwind=10 rec=2 cutfmt=1 uw=same_output.0:25;exit_model.0:25;exit.0:25;push.0:17;write.0:17 timeout=900 what=흑_to_stack_0:copies_pushed_onto_the_input_buffer,stdin_selected
+step!(t_dup_to0, Cfg { kind: 5, h: 2, d: 0, depth: [0, 0, 0, 1, 0, 0], ..CFG0 });
+// @h prop=C01 unwind=10 rec=2 cutfmt=1 uw=same_output.0:25;exit_model.0:25;exit.0:25;push.0:17;write.0:17 timeout=900 what=핫_with_small_fractions
+step!(t_mul2_frac, Cfg { kind: 2, h: 2, d: 4, dom: Dom::Frac, depth: [0, 0, 0, 2, 0, 0], ..CFG0 });
+// @h prop=C01 unwind=10 rec=2 cutfmt=1 uw=same_output.0:25;exit_model.0:25;exit.0:25;push.0:17;write.0:17 timeout=900 what=항_with_small_fractions
+step!(t_add2_frac, Cfg { kind: 1, h: 2, d: 4, dom: Dom::Frac, depth: [0, 0, 0, 2, 0, 0], ..CFG0 });
+// @h prop=C01 unwind=10 rec=2 cutfmt=1 uw=same_output.0:25;exit_model.0:25;exit.0:25;push.0:17;write.0:17 timeout=900 what=흡_of_an_integer(0->NaN,negatives)
+step!(t_inv1_int, Cfg { kind: 4, h: 1, d: 4, depth: [0, 0, 0, 1, 0, 0], ..CFG0 });
+// @h prop=C01 unwind=10 rec=2 cutfmt=1 uw=same_output.0:25;exit_model.0:25;exit.0:25;push.0:17;write.0:17 timeout=900 what=형_with_heart,stack_4_selected,2_label_entries
+step!(t_push_heart_c4, Cfg { kind: 0, h: 3, d: 2, cur: 4, area: 1, npts: 2, depth: [0, 0, 0, 0, 1, 0], ..CFG0 });
+// @h prop=C01 unwind=10 rec=3 cutfmt=1 uw=same_output.0:25;exit_model.0:25;exit.0:25;push.0:17;write.0:17 timeout=900 what=항_then_!_on_the_emptied_stack(NaN->right)
+step!(t_e_empty, Cfg { kind: 1, h: 1, d: 4, area: 4, depth: [0, 0, 0, 1, 0, 0], ..CFG0 });
+// @h prop=C01 unwind=10 rec=4 cutfmt=1 uw=same_output.0:25;exit_model.0:25;exit.0:25;push.0:17;write.0:17 timeout=900 tier=thorough what=_?[h?white]_three_deep_stack
+step!(t_q_white, Cfg { kind: 0, h: 2, d: 2, area: 6, latest: true, depth: [0, 0, 0, 3, 0, 0], ..CFG0 });
+// @h prop=C14 unwind=10 rec=2 cutfmt=1 uw=same_output.0:25;exit_model.0:25;exit.0:25;push.0:17;write.0:17 timeout=900 what=line_of_two_3-byte_characters
+step!(u_in_33, Cfg { kind: 1, h: 1, d: 3, cur: 0, line: Some(2), classes: [3, 3, 1, 1], depth: [0, 0, 0, 0, 0, 0], ..CFG0 });
+// @h prop=C14 unwind=10 rec=2 cutfmt=1 uw=same_output.0:25;exit_model.0:25;exit.0:25;push.0:17;write.0:17 timeout=900 what=line_of_1-byte+4-byte
+step!(u_in_14, Cfg { kind: 1, h: 1, d: 3, cur: 0, line: Some(2), classes: [1, 4, 1, 1], depth: [0, 0, 0, 0, 0, 0], ..CFG0 });
+// @h prop=C14 unwind=10 rec=2 cutfmt=1 uw=same_output.0:25;exit_model.0:25;exit.0:25;push.0:17;write.0:17 timeout=900 what=two_buffered_characters:popped_in_order,no_read
+step!(u_in_2_buffered, Cfg { kind: 1, h: 1, d: 3, cur: 0, line: Some(1), classes: [2, 1, 1, 1], depth: [2, 0, 0, 0, 0, 0], ..CFG0 });
+// @h prop=C14 unwind=10 rec=2 cutfmt=num uw=same_output.0:25;exit_model.0:25;exit.0:25;push.0:17;write.0:17 timeout=900 tier=thorough what=non-negative_fraction_to_stdout:floor_is_the_code_point
+step!(u_out_frac, Cfg { kind: 1, h: 1, d: 1, dom: Dom::ScalarFrac, depth: [0, 0, 0, 1, 0, 0], ..CFG0 });
